@@ -25,8 +25,7 @@ class MethodMixin(object):
             return "usage"
         if t[0] == "conn":
             return "conn"
-        if t[0] == "call" and t[1] in ("_get_db", "_open_db_connection",
-                                        "_atomic_create_and_initialize_db"):
+        if t[0] == "call" and t[1] in self.repo.modules["database"].functions:
             return "conn"
         if t[0] == "param" and t[1] in ("db",):
             return "conn"
@@ -55,6 +54,8 @@ class MethodMixin(object):
         if k == "class":
             # Base.__init__(self, ...) style call on an internal class
             fi = self.repo.method(recv[1], name)
+            if fi is not None and (fi.is_static or fi.is_classmethod):
+                return self.call_function(fi, recv, args, kwargs, state, frame, node)
             if fi is not None and args:
                 return self.call_function(fi, args[0], args[1:], kwargs, state,
                                           frame, node)
@@ -65,6 +66,9 @@ class MethodMixin(object):
             return self.db_call(recv, dbn, name, args, kwargs, state, frame, node)
         if k == "cursor":
             if name == "fetchone":
+                if not hasattr(self, "fetchone_sites"):
+                    self.fetchone_sites = set()
+                self.fetchone_sites.add(recv[1])
                 return [(state, ("row", recv[1]))]
             if name == "fetchall":
                 return [(state, ("rows", recv[1]))]
@@ -91,11 +95,20 @@ class MethodMixin(object):
                     lst.append(rec)
                 self.ev(state, "coll_add", frame, node, coll=recv, elem=rec["elem"])
                 return [(state, NONE)]
+        if k == "row" and name == "get" and len(args) == 1 and is_const(args[0]):
+            # a fetched row is a dict with every selected column present
+            return [(state, ("sub", recv, args[0]))]
         if k in ("kwdict", "dictlit") and name == "get" and args and is_const(args[0]):
             for (kk, v) in recv[1]:
                 if kk == args[0][1] or kk == args[0]:
                     return [(state, v)]
             return [(state, args[1] if len(args) > 1 else NONE)]
+        if k == "elem":
+            # record.field(...) on an element of a table of callback records
+            cb = self.listener_callback(recv)
+            if cb is not None and cb[0][1][0] == "obj" and \
+                    (cb[0][1][1], cb[0][2]) not in self.registries:
+                return self.call_listener((cb[0], name), recv, args, kwargs, state, frame, node)
         # internal method name on an unresolved receiver: refuse to guess
         cands = [c for c, (m, cd) in self.repo.classes.items()
                  if name in cd["methods"] and not name.startswith("__")]
@@ -105,7 +118,11 @@ class MethodMixin(object):
                 ty = None
                 if recv[0] == "elem":
                     ty = self.elem_type(recv)
-                if ty is None and len(cands) == 1 and recv[0] in ("param", "elem", "loopvar"):
+                if recv[0] == "item" and recv[2] == 1 and recv[1][0] == "elem":
+                    # for key, obj in registry.items()
+                    ty = self.elem_type(recv[1], method=".items")
+                if ty is None and len(cands) == 1 and recv[0] in ("param", "elem", "loopvar",
+                                                                    "item"):
                     ty = cands[0]
                 if ty is not None:
                     obj = ("obj", ty, ("sym", recv))
@@ -116,9 +133,9 @@ class MethodMixin(object):
                     "(%s:%d)" % (name, recv[:2], frame.func.module, node.lineno))
         return self.ext_method(recv, name, args, kwargs, state, frame, node)
 
-    def elem_type(self, elem):
+    def elem_type(self, elem, method=".values"):
         coll = strip_wrappers(elem[1])
-        if coll[0] == "call" and coll[1] == ".values" and coll[2] and coll[2][0][0] == "reg":
+        if coll[0] == "call" and coll[1] == method and coll[2] and coll[2][0][0] == "reg":
             reg = coll[2][0]
             info = self.registries.get((reg[1][1], reg[2]))
             if info:
@@ -148,10 +165,12 @@ class MethodMixin(object):
     def reg_method(self, reg, name, args, kwargs, state, frame, node):
         if name in ("values", "items", "keys", "copy"):
             return [(state, ("call", "." + name, (reg,), ()))]
+        src_args = list(args)
         args = [plain(a) for a in args]
         if name in ("pop", "popitem", "clear", "remove", "discard"):
             self.ev(state, "reg_del", frame, node, reg=reg,
-                    key=args[0] if args else None, how=name)
+                    key=args[0] if args else None, how=name, nargs=len(args),
+                    key_src=src_args[0] if src_args else None)
             if args:
                 state.regs.pop((reg, args[0]), None)
             return [(state, ("call", "." + name, (reg,) + tuple(args), ()))]
@@ -175,7 +194,8 @@ class MethodMixin(object):
             return [(state, ("call", "." + name, (reg,) + tuple(args), ()))]
         if name in ("add", "append", "update"):
             self.ev(state, "reg_set", frame, node, reg=reg, key=None,
-                    value=args[0] if args else NONE)
+                    value=args[0] if args else NONE,
+                    value_src=src_args[0] if src_args else NONE)
             return [(state, NONE)]
         return [(state, ("call", "." + name, (reg,) + tuple(args), ()))]
 
@@ -229,6 +249,18 @@ class MethodMixin(object):
             p = args[1]
             if p[0] == "tuple":
                 params = list(p[1])
+            elif p[0] in ("dictlit", "kwdict") and all(
+                    n is not None for n in getattr(stmt, "param_names", [None])):
+                # named placeholders bound from a literal mapping
+                d = {}
+                for (k, v) in p[1]:
+                    kk = k[1] if isinstance(k, tuple) and is_const(k) else k
+                    d[kk] = v
+                missing = [n for n in stmt.param_names if n not in d]
+                if missing:
+                    raise AnalysisError("SQL named parameters %s are not bound at %s:%d"
+                                        % (missing, site[0], site[1]))
+                params = [d[n] for n in stmt.param_names]
             else:
                 raise AnalysisError("SQL parameters are not a literal tuple at %s:%d"
                                     % site[:2])
